@@ -129,6 +129,36 @@ pub fn run(ctx: &Ctx) -> CheckOutput {
             }
         }
     }
+    // structured phase histories, every window length
+    for kind in VIEWS {
+        for n in if quick { vec![2usize, 3, 5, 8, 9, 13] } else { (1..=16).chain([20, 33]).collect() } {
+            let spec = Spec::un(kind, n, Spec::echo());
+            let phases = if quick { 3 } else { 4 };
+            jobs.push(Box::new(move || {
+                let mut st = Stats::default();
+                let sink = Sink::new();
+                let d = phase_drivers(n, phases);
+                ref_drivers::<f64>("C02", &spec, &d, &mut st, &sink, &|h, hf, v, out| oracle::<f64>(kind, n, h, hf, v, out));
+                if n <= 9 {
+                    ref_drivers::<Q>("C02", &spec, &phase_drivers(n, 2), &mut st, &sink, &|h, hf, v, out| oracle::<Q>(kind, n, h, hf, v, out));
+                }
+                JobOut { stats: st, viols: sink.take(), samples: vec![json!({"explorer":"LONG","view":spec.name(),"driver":format!("every sequence of <= {} phases from a menu of 8, {} histories", phases, d.len())})] }
+            }));
+        }
+    }
+    // long histories (behaviour keyed on the number of updates / evictions)
+    for kind in VIEWS {
+        for n in [2usize, 5] {
+            let spec = Spec::un(kind, n, Spec::echo());
+            let len = if quick { 300 } else { 1200 };
+            jobs.push(Box::new(move || {
+                let mut st = Stats::default();
+                let sink = Sink::new();
+                ref_long_cycles::<f64>("C02", &spec, &Z5, 3, len, &mut st, &sink, &|h, hf, v, out| oracle::<f64>(kind, n, h, hf, v, out));
+                JobOut { stats: st, viols: sink.take(), samples: vec![json!({"explorer":"LONG","scalar":"f64","view":spec.name(),"driver":"every Z5 cycle of period<=3","steps":len})] }
+            }));
+        }
+    }
     // windows a TREE from the empty history cannot fill: every suffix over Z3 after three base histories
     for kind in VIEWS {
         for n in if quick { vec![7usize, 9, 12] } else { vec![7, 8, 9, 11, 12, 16, 20] } {
